@@ -253,7 +253,10 @@ class Program:
                     self._count('normalise_ifexp', normalise_ifexp(fi.node))
                     self._count('normalise_self_conditional', normalise_self_conditional(fi.node))
                     self._count('normalise_generator_arguments', normalise_generator_arguments(fi.node))
-            from .inline import Inliner, load_reference, normalise_record_classes, normalise_compiled_patterns, normalise_literal_loops, normalise_module_constants, normalise_small_quantifiers
+            from . import inline as _inline_mod
+            _inline_mod.ENUM_CLASSES.clear()
+            _inline_mod.ENUM_CLASSES.update(ci.name for ci in self.classes.values() if any(b.rsplit('.', 1)[-1] in ('Enum', 'IntEnum', 'StrEnum', 'Flag') for b in ci.bases))
+            from .inline import Inliner, load_reference, normalise_enum_values, normalise_local_tables, normalise_record_classes, normalise_compiled_patterns, normalise_literal_loops, normalise_module_constants, normalise_small_quantifiers
             ref = load_reference()
             if ref is not None:
                 for m in self.modules.values():
@@ -263,12 +266,15 @@ class Program:
                 if fi.parent is None:
                     self._count('normalise_small_quantifiers', normalise_small_quantifiers(fi.node))
                     self._count('normalise_compiled_patterns', normalise_compiled_patterns(fi.node))
+                    self._count('normalise_display_comprehensions', normalise_display_comprehensions(fi.node))
                     self._count('normalise_literal_loops', normalise_literal_loops(fi.node))
+                    self._count('normalise_enum_values', normalise_enum_values(fi.node, lambda cls_, member_, _m=fi.module: self._enum_constant(_m, cls_, member_)))
+                    self._count('normalise_local_tables', normalise_local_tables(fi.node))
             if ref is not None:
                 inl = Inliner(self, ref)
                 inl.run()
                 self.inlined = inl.inlined
-            from .inline import normalise_comprehension_filters, normalise_conditional_returns, normalise_iteration, normalise_test_locals
+            from .inline import normalise_unchanged_returns, normalise_comprehension_filters, normalise_conditional_returns, normalise_iteration, normalise_test_locals
             for fi in self.functions.values():
                 if fi.parent is None:
                     self._count('normalise_iteration', normalise_iteration(fi.node))
@@ -276,6 +282,15 @@ class Program:
                     self._count('normalise_comprehension_filters', normalise_comprehension_filters(fi.node))
                     self._count('normalise_test_locals', normalise_test_locals(fi.node))
                     self._count('normalise_conditional_returns', normalise_conditional_returns(fi.node))
+                    self._count('normalise_unchanged_returns', normalise_unchanged_returns(fi.node))
+
+    def _enum_constant(self, mod: 'Module', cls_name: str, member: str):
+        """The constant an enumeration member is defined as (`left = 'left'`), None when the name is not an enumeration of the program."""
+        ci = self.classes.get(self.canonical(mod.resolve(cls_name)))
+        if ci is None or not any(b.rsplit('.', 1)[-1] in ('Enum', 'IntEnum', 'StrEnum', 'Flag') for b in ci.bases):
+            return None
+        v = ci.attrs.get(member)
+        return v if isinstance(v, ast.Constant) else None
 
     def _count(self, name: str, n) -> None:
         if n:
